@@ -33,15 +33,14 @@ def find_diff_start(a: "Fragment", b: "Fragment", pos: int) -> int | None:
                     return pos + text_length(child_a.text)
                 if child_a.text.startswith(child_b.text):
                     return pos + text_length(child_b.text)
+                units_a = child_a.text.encode("utf-16-le")
+                units_b = child_b.text.encode("utf-16-le")
                 next_index = next(
                     (
-                        index_a
-                        for ((index_a, char_a), (_, char_b)) in zip(
-                            enumerate(child_a.text),
-                            enumerate(child_b.text),
-                            strict=True,
-                        )
-                        if char_a != char_b
+                        index
+                        for index in range(min(len(units_a), len(units_b)) // 2)
+                        if units_a[2 * index : 2 * index + 2]
+                        != units_b[2 * index : 2 * index + 2]
                     ),
                     None,
                 )
